@@ -68,11 +68,49 @@ func runRule(c *core.Ctx) {
 	pos := c.Prog.Pos(fn.Pos())
 	recv := ssa.Value(fn.Params[0])
 	inline := func(call *ssa.Call, callee *ssa.Function) bool {
+		if callee.Pkg != fn.Pkg || callee.Object() == nil || callee.Object().Exported() || len(callee.Blocks) == 0 {
+			return false
+		}
 		// small unexported methods of the candidate itself (fail / succeed helpers)
-		return callee.Pkg == fn.Pkg && callee.Object() != nil && !callee.Object().Exported() && len(callee.Blocks) > 0 && callee.Signature.Recv() != nil &&
-			len(call.Call.Args) > 0 && call.Call.Args[0] == recv
+		if callee.Signature.Recv() != nil {
+			return len(call.Call.Args) > 0 && call.Call.Args[0] == recv
+		}
+		// an unexported plain helper between Run and the producers (the encode-then-split tail shared with the
+		// content encoders); the producers themselves and the constructor stay events
+		switch canonName(callee) {
+		case "splitWithUDHI", "encodeAndSplitGSM7Packed", "newBatchEncoder":
+			return false
+		}
+		for _, b := range callee.Blocks {
+			for _, ins := range b.Instrs {
+				if cl, ok := ins.(*ssa.Call); ok {
+					switch canonName(cl.Call.StaticCallee()) {
+					case "splitWithUDHI", "encodeAndSplitGSM7Packed":
+						return true
+					}
+					if cl.Call.IsInvoke() && (cl.Call.Method.Name() == "SplitBy" || cl.Call.Method.Name() == "Encode") {
+						return true
+					}
+				}
+			}
+		}
+		return false
 	}
-	ps, err := paths.Enumerate(fn, paths.Config{Inline: inline, MaxDepth: 2})
+	// a test of a helper's error result that the path has resolved to the literal nil is decided
+	decide := func(w *paths.Walker, cond ssa.Value) int {
+		subj, neq, ok := nilTest(cond)
+		if !ok {
+			return 0
+		}
+		if paths.IsNilConst(w.Resolve(subj)) {
+			if neq {
+				return -1
+			}
+			return 1
+		}
+		return 0
+	}
+	ps, err := paths.Enumerate(fn, paths.Config{Inline: inline, MaxDepth: 2, Decide: decide})
 	if err != nil {
 		c.Unknown("C09-RUN", key, pos, "path enumeration failed: "+err.Error())
 		return
@@ -111,6 +149,7 @@ func runRule(c *core.Ctx) {
 		var prods []*producer
 		canEncode, canSet := false, false
 		var data ssa.Value
+		dataRes := func(v ssa.Value) ssa.Value { return v }
 		codecNil, cannotGSM := false, false
 		packedRoute := 0 // +1 the coding was found to be packed GSM-7, -1 found not to be
 		singleTaken := false
@@ -131,6 +170,7 @@ func runRule(c *core.Ctx) {
 							}
 						case "data":
 							data = e.Resolve(x.Val)
+							dataRes = e.Resolve
 						}
 					}
 				case *ssa.Call:
@@ -138,14 +178,14 @@ func runRule(c *core.Ctx) {
 					switch {
 					case strings.HasSuffix(n, ".encodeAndSplitGSM7Packed"):
 						prods = append(prods, &producer{call: x, kind: "packed", errIdx: 2})
-						if len(x.Call.Args) != 2 || !isRecvFieldLoad(x.Call.Args[0], recv, "content") || !isRecvFieldLoad(x.Call.Args[1], recv, "frameKey") {
+						if len(x.Call.Args) != 2 || !isRecvFieldLoad(e.Resolve(x.Call.Args[0]), recv, "content") || !isRecvFieldLoad(e.Resolve(x.Call.Args[1]), recv, "frameKey") {
 							problems = append(problems, "the packed splitter is not given the candidate's own content and reference")
 						}
 					case n == "invoke.Encode":
 						prods = append(prods, &producer{call: x, kind: "encode", errIdx: 1})
 					case strings.HasSuffix(n, ".splitWithUDHI"):
 						prods = append(prods, &producer{call: x, kind: "split", errIdx: 1})
-						okArgs := len(x.Call.Args) == 3 && isRecvFieldLoad(x.Call.Args[2], recv, "frameKey")
+						okArgs := len(x.Call.Args) == 3 && isRecvFieldLoad(e.Resolve(x.Call.Args[2]), recv, "frameKey")
 						if okArgs {
 							ex, isE := e.Resolve(x.Call.Args[0]).(*ssa.Extract)
 							okArgs = isE && ex.Index == 0 && len(prods) >= 2 && ex.Tuple == ssa.Value(prods[len(prods)-2].call) && prods[len(prods)-2].kind == "encode"
@@ -246,7 +286,7 @@ func runRule(c *core.Ctx) {
 				els := literalOctets(data)
 				okLit := len(els) == 1
 				if okLit {
-					ex, isE := els[0].(*ssa.Extract)
+					ex, isE := dataRes(els[0]).(*ssa.Extract)
 					okLit = isE && ex.Tuple == ssa.Value(lastP.call) && ex.Index == 0
 				}
 				if !okLit || !singleTaken {
